@@ -146,7 +146,7 @@ class World:
         return pcache._get_hashed_path(gr._hashed, Path(self.src[p]), cache_path=self.dirs[d])
 
     # ---- the main call in a worker thread --------------------------------------------------------
-    def start(self, g, p, d):
+    def start(self, g, p, d, diff=False):
         self.finish_call()
         world = self
 
@@ -164,7 +164,8 @@ class World:
 
         def body():
             try:
-                m = world.grammars[g].parse(file_io=HookedIO(world.src[p]), cache=True, cache_path=world.dirs[d])
+                m = world.grammars[g].parse(file_io=HookedIO(world.src[p]), cache=True, cache_path=world.dirs[d],
+                                            diff_cache=bool(diff))
                 w['result'] = ('tree', m.get_code(), world.grammars[g].parse(m.get_code()).dump(indent=None) ==
                                m.dump(indent=None))
             except _Crash:
@@ -266,7 +267,7 @@ class World:
             self.restamp()
             self.switch('main')
         elif name == 'Start':
-            self.start(act[1], act[2], act[3])
+            self.start(act[1], act[2], act[3], len(act) > 4 and act[4] in (True, 'TRUE'))
         elif name == 'CrashInStore':
             self.fault = ('crash', (self.clock * 37) % 200)
             if not self.advance('diskstore'):
